@@ -354,5 +354,85 @@ theorem c16_stack_order_needed :
     rw [List.nil_append, c16_builtins_first_breaks_authorization.1] at this
     exact absurd this (by decide)
 
+/-! ## F. The connect rule list on the CONNECT head the upstream proxy receives (F47)
+
+  `connectHeadMap rs h`: the `--connect-header` list `rs` as request modifier over the client's
+  CONNECT header `h`, then `GetProxyConnectHeader` (the list applied to an EMPTY header) copied over
+  it key by key.  `-name`, `name;` and `%name` survive the second pass; `name:value` does not append
+  when the CONNECT already carries the name.  Byte strings: "X-Foo" = [88,45,70,111,111],
+  "a" = [97], "v" = [118]. -/
+
+/-- full clause — FALSE of the code (F47, not repaired): `name:value` appends to the values the
+    client's CONNECT carries under the name -/
+def c16_connect_add_appends_full : Prop :=
+  ∀ (h : HMap) (n v : Bytes),
+    valuesOf (connectHeadMap [.add n v] h) (canonicalKey n) = valuesOf h (canonicalKey n) ++ [v]
+
+/-- what the code does, for every header and name: the upstream proxy receives the rule's value
+    ALONE (the second pass overwrites the key) -/
+theorem c16_connect_add_second_pass_overwrites (h : HMap) (n v : Bytes) :
+    valuesOf (connectHeadMap [.add n v] h) (canonicalKey n) = [v] := by
+  unfold connectHeadMap connectSecondPass applyRules valuesOf
+  simp only [List.foldl_cons, List.foldl_nil, applyRule, goAdd_nil, copyOver_single]
+  rw [lookup_put_self]
+  rfl
+
+example : valuesOf (connectHeadMap [.add [88, 45, 70, 111, 111] [118]] [([88, 45, 70, 111, 111], [[97]])])
+    [88, 45, 70, 111, 111] = [[118]] := by decide
+
+/-- the append clause holds on CONNECT heads when the CONNECT does not carry the name as the rule runs -/
+theorem c16_connect_add_appends_partial (h : HMap) (n v : Bytes)
+    (habs : valuesOf h (canonicalKey n) = []) :
+    valuesOf (connectHeadMap [.add n v] h) (canonicalKey n) = valuesOf h (canonicalKey n) ++ [v] := by
+  rw [c16_connect_add_second_pass_overwrites, habs]
+  rfl
+
+example : valuesOf ([] : HMap) (canonicalKey [88, 45, 70, 111, 111]) = [] := by decide
+
+/-- "X-Foo: v" on a CONNECT that carries "X-Foo: a": the upstream proxy receives ["v"], the
+    documented meaning is ["a", "v"] -/
+theorem c16_connect_second_pass_witness :
+    valuesOf (connectHeadMap [.add [88, 45, 70, 111, 111] [118]] [([88, 45, 70, 111, 111], [[97]])])
+      (canonicalKey [88, 45, 70, 111, 111]) = [[118]] ∧
+    valuesOf [([88, 45, 70, 111, 111], [[97]])] (canonicalKey [88, 45, 70, 111, 111]) ++ [[118]] =
+      [[97], [118]] := by decide
+
+theorem c16_connect_add_appends_full_false : ¬ c16_connect_add_appends_full := by
+  intro hall
+  have := hall [([88, 45, 70, 111, 111], [[97]])] [88, 45, 70, 111, 111] [118]
+  rw [c16_connect_second_pass_witness.1, c16_connect_second_pass_witness.2] at this
+  exact absurd this (by decide)
+
+/-- `-name` does remove a field the client's CONNECT carries: the second pass has nothing to copy -/
+theorem c16_connect_remove_removes (h : HMap) (n : Bytes) :
+    HMap.get (connectHeadMap [.remove n] h) (canonicalKey n) = none := by
+  unfold connectHeadMap connectSecondPass applyRules
+  simp only [List.foldl_cons, List.foldl_nil, applyRule, goDel_nil, copyOver_nil]
+  exact get_goDel_self h n
+
+example : HMap.get (connectHeadMap [.remove [120, 45, 102, 111, 111]] [([88, 45, 70, 111, 111], [[97]])])
+    [88, 45, 70, 111, 111] = none := by decide
+
+/-- `name;` gives the empty value, whatever the CONNECT carried -/
+theorem c16_connect_empty_sets_empty (h : HMap) (n : Bytes) :
+    valuesOf (connectHeadMap [.empty n] h) (canonicalKey n) = [[]] := by
+  unfold connectHeadMap connectSecondPass applyRules valuesOf
+  simp only [List.foldl_cons, List.foldl_nil, applyRule, goSet_nil, copyOver_single]
+  rw [lookup_put_self]
+  rfl
+
+example : valuesOf (connectHeadMap [.empty [88, 45, 70, 111, 111]] [([88, 45, 70, 111, 111], [[97]])])
+    [88, 45, 70, 111, 111] = [[]] := by decide
+
+/-- `%name` respells the field of the client's CONNECT exactly as `Apply` does: the second pass
+    finds nothing to respell in the empty header and copies nothing -/
+theorem c16_connect_rename_is_apply (h : HMap) (n : Bytes) :
+    connectHeadMap [.rename n] h = renameCase h n := by
+  unfold connectHeadMap connectSecondPass applyRules
+  simp only [List.foldl_cons, List.foldl_nil, applyRule, renameCase_nil, copyOver_nil]
+
+example : connectHeadMap [.rename [120, 45, 102, 111, 111]] [([88, 45, 70, 111, 111], [[97]])] =
+    [([120, 45, 102, 111, 111], [[97]])] := by decide
+
 end C16
 end FwdVerif
